@@ -57,3 +57,74 @@ CLASSES = {c.__name__: c for c in (P, Q, R, S, T, U)}
 def module_function(x):
   """A module-level function (functions are serialised by name)."""
   return x
+
+
+# ------------------------------------------------------------------------------------------
+# Module-level twins of the user classes of harness/typing_vocab.py (its own are local classes,
+# which `to_json` refuses to name): installed as `typing_vocab._CLS` by the C05 harness so that
+# the C04 spec vocabulary can be serialised.
+# ------------------------------------------------------------------------------------------
+
+class VBase:
+  def __init__(self, uid, partial=False):
+    self.uid = uid
+    self.partial = partial
+
+  def __eq__(self, other):
+    return type(other) is type(self) and other.uid == self.uid
+
+  def __ne__(self, other):
+    return not self.__eq__(other)
+
+  def __hash__(self):
+    return hash((type(self).__name__, self.uid))
+
+  def __repr__(self):
+    return '%s#%d' % (type(self).__name__, self.uid)
+
+
+class VA(VBase):
+  pass
+
+
+class VB(VA):
+  pass
+
+
+class VC(VBase):
+  pass
+
+
+class VP(VBase, pg.utils.MaybePartial):
+  @property
+  def is_partial(self):
+    return self.partial
+
+  def missing_values(self, flatten=True):
+    return {'x': pg.MISSING_VALUE} if self.partial else {}
+
+
+@pg.members([('uid', pg.typing.Int()), ('w', pg.typing.Int()), ('d', pg.typing.Dict([('q', pg.typing.Int())]))])
+class VS2(pg.Object):
+  pass
+
+
+@pg.members([('uid', pg.typing.Int()), ('x', pg.typing.Int()), ('c', pg.typing.Object(VS2))])
+class VS1(pg.Object):
+  pass
+
+
+VOCAB = [VA, VB, VC, VP, VS1, VS2]
+
+
+@pg.functor([('x', pg.typing.Any()), ('y', pg.typing.Any(default=1))])
+def vocab_functor(x, y=1):
+  """A module-level functor: `vocab_functor(1)` is a pg.Object with fields x, y."""
+  return x
+
+
+class N(pg.Object):
+  """Not in the type registry: loadable only through `auto_import` (module + qualified name)."""
+  auto_register = False
+  x: pg.typing.Int()
+  w: pg.typing.Any(default=None)
